@@ -25,9 +25,10 @@ CONFIG = {
     "id": "C07",
     "rule": ("documents: (A) every anchor-free document built from <= 2 entries per container and depth <= 3 over "
              "maps / sequences / arrays-of-hashes / scalars of every type, (B) one-key documents over 40 keys with "
-             "special characters at three nesting shapes, (C) 60 hand-written templates with anchored scalars / maps / "
+             "special characters at three nesting shapes, (C) 67 hand-written templates with anchored scalars / maps / "
              "sequences, aliases as map values and list elements, aliased keys, merge keys (single, multiple, "
-             "overriding), sets; (C') 8 documents with anchored booleans (ruamel ScalarBoolean) as values / elements / "
+             "overriding), sets, anchors first defined beneath a matched key or beneath the value of an excluded "
+             "aliased key, lone-scalar documents (plain, anchored); (C') 8 documents with anchored booleans (ruamel ScalarBoolean) as values / elements / "
              "keys / set members x a boolean term alphabet; (D) seeded random larger documents with anchors and merge keys.  Each document x the "
              "nine operators x inverted or not x a term alphabet x {values, keys+values, keys-only} x the four "
              "alias-inclusion modes x expand on/off x both notations (full cross product on B and C for quick-tier "
@@ -49,8 +50,10 @@ CONFIG = {
     "assumptions": [
         "the model is the code only as far as the correspondence run shows",
         "alias options are read as the tool documents them: an aliased key, an aliased value or a merged-in key hides "
-        "itself and everything beneath it unless the matching option is on; the first visited occurrence of an "
-        "anchored node is the original",
+        "itself and everything beneath it unless the matching option is on; the first occurrence of an anchored "
+        "node in document order (by anchor name) is the original, wherever it stands - also beneath a matched key "
+        "or beneath the value of an excluded aliased key, which the search does not enter",
+        "a null document is empty: it has no places (the Processor yields no node for any path on it)",
     ],
 }
 
@@ -466,8 +469,6 @@ def expected_places(data, term, o):
     values, keys, _anch, kalias, valias, expand = o
     out = []
     seen = []
-    state = {"under": False}
-    pruned_anchors = set()
 
     def is_alias(x):
         a = anchor_of(x)
@@ -476,9 +477,23 @@ def expected_places(data, term, o):
         if a in seen:
             return True
         seen.append(a)
-        if state["under"]:
-            pruned_anchors.add(a)
         return False
+
+    def record(x):
+        """The anchors beneath a node that is not searched (the value of an excluded aliased key) are met
+        all the same: an alias of one of them, later in the document, is an aliased repeat."""
+        if is_map(x):
+            for k, v in x.items():
+                is_alias(k)
+                is_alias(v)
+                record(v)
+        elif is_seq(x):
+            for e in x:
+                is_alias(e)
+                record(e)
+        elif is_set(x):
+            for m in x:
+                is_alias(m)
 
     def leaves(x, loc, under):
         """leaf descendants of a matched parent (the parent itself when it is a leaf)"""
@@ -490,6 +505,7 @@ def expected_places(data, term, o):
                 if k in mk and not (kalias or valias):
                     continue
                 if (ka and not kalias) or (va and not valias):
+                    record(v)
                     continue
                 leaves(v, loc + (("K", k),), under)
         elif is_seq(x):
@@ -520,6 +536,7 @@ def expected_places(data, term, o):
                 ka = is_alias(k)
                 va = is_alias(v)
                 if ka and not kalias:
+                    record(v)
                     continue
                 l2 = loc + (("K", k),)
                 key_hit = keys and sat(term, k)
@@ -530,10 +547,9 @@ def expected_places(data, term, o):
                 if va and not valias:
                     continue
                 if is_map(v) or is_seq(v) or is_set(v):
-                    was = state["under"]
-                    state["under"] = under or key_hit
+                    # (beneath a matched key the walk goes on, marking the places as covered by the key's
+                    # report - finding key_match_prunes_subtree - and meeting the anchors in document order)
                     walk(v, l2, under or key_hit)
-                    state["under"] = was
                 elif values and sat(term, v) and not key_hit:
                     # (a scalar value under its own matching key shares the key's path: one report)
                     out.append(Place(l2, "val", v, under))
@@ -554,9 +570,9 @@ def expected_places(data, term, o):
                     out.append(Place(loc + (("E", m),), "member", m, under))
     if is_map(data) or is_seq(data) or is_set(data):
         walk(data, (), False)
-    elif values and sat(term, data):
-        out.append(Place((), "val", data, False))      # a scalar document
-    return out, pruned_anchors
+    elif values and data is not None and sat(term, data):
+        out.append(Place((), "val", data, False))      # a lone-scalar document (a null document is empty)
+    return out
 
 
 def coord_index(data):
@@ -613,30 +629,6 @@ def resolve(data, proc, idx, text):
     return locs, ids, len(ncs)
 
 
-def anchors_along(data, loc):
-    """Anchor names of every key / node passed on the way to `loc`."""
-    out = []
-    x = data
-    for kind, r in loc:
-        try:
-            if kind == "K":
-                for k in x.keys():
-                    if k == r:
-                        out.append(anchor_of(k))
-                x = x[r]
-            elif kind == "I":
-                x = x[r]
-            else:
-                for m in x:
-                    if m == r:
-                        out.append(anchor_of(m))
-                break
-        except Exception:  # noqa
-            break
-        out.append(anchor_of(x))
-    return [a for a in out if a is not None]
-
-
 def loc_str(loc):
     return "/".join("%s:%r" % (k, (str(r) if not isinstance(r, int) else r)) for k, r in loc) or "<root>"
 
@@ -688,7 +680,7 @@ def discrepancies(case):
     _, data, res, term = r
     out = []
     try:
-        exp, pruned_anchors = expected_places(data, term, o)
+        exp = expected_places(data, term, o)
     except Exception as e:  # noqa
         return [("other", "brute-force walk failed: %r" % (e,))]
     idx = coord_index(data)
@@ -717,8 +709,6 @@ def discrepancies(case):
                     cand = e
         if cand is not None:
             cand.taken = True
-        elif pruned_anchors and any(a in pruned_anchors for l in locs for a in anchors_along(data, l)):
-            out.append(("prune", "path %r reported for an alias whose anchor lies beneath a matched key" % s))
         elif known:
             out.append(("twice", "path %r reported although every place it resolves to was already reported" % s))
         else:
@@ -726,9 +716,7 @@ def discrepancies(case):
                         % (s, ", ".join(loc_str(l) for l in sorted(locs, key=repr)), expr, o)))
     for e in exp:
         if not e.taken:
-            if e.loc == ():
-                tag = "scalarroot"
-            elif unsafe_on(e.loc, sep):
+            if unsafe_on(e.loc, sep):
                 tag = "unsafekey"
             elif e.under_key_hit:
                 tag = "prune"
@@ -823,7 +811,6 @@ def judge(case, obs):
 FINDING_PREDS = {
     "key_match_prunes_subtree": _finding("prune"),
     "unsafe_key_section": _finding("unsafekey"),
-    "scalar_document": _finding("scalarroot"),
     "reused_anchor_name": _finding("reusedanchor"),
 }
 
@@ -1024,6 +1011,18 @@ ANCHOR_DOCS = [
     "{a: &x a, b: [&y {k: *x}, *y], c: {<<: *y}}",
     "{a: [&x a, {k: *x, j: &z [*x]}], b: *z}",
     "{a: &x 1, b: {k: &y [*x, a]}, c: {<<: {j: *y}}}",
+    # anchors first defined in a part the search does not enter: beneath a matched key, beneath the value of
+    # an excluded aliased key (record_anchors); lone-scalar documents, plain and anchored
+    "{a: {k: &w b}, z: *w}",
+    "{a: {k: &w b, l: [&y a]}, z: *w, q: [*y, *w]}",
+    "{k: [&w a, {a: &v {a: a}}], b: *w, j: *v}",
+    "{&k a: 1, b: {*k : {x: &n a}}, c: *n}",
+    "{x: {&k a: 1}, y: {*k : [&n a, {j: &m {a: a}}]}, z: [*n, *m]}",
+    "{x: {&k a: 1}, y: {*k : !!set {&s a}}, z: *s}",
+    "[{a: &w {a: &v a}}, *w, *v]",
+    "&x a",
+    "&x 1",
+    "a",
 ]
 
 
@@ -1176,9 +1175,7 @@ def chunks(tier, seed):
     nrand = 8000 if thorough else 2500
     for i in range(nrand):
         anchors = {}
-        body = rand_doc(rng, rng.randint(1, 4), anchors, 12)
-        if not (body.startswith("{") or body.startswith("[") or body.startswith("&")):
-            body = "[%s]" % body
+        body = rand_doc(rng, rng.randint(1, 4), anchors, 12)        # (a lone scalar now and then)
         es = _take(rng, list(exprs(["a", "1", "k", "b", "x0", "2"])), 6)
         for e in es:
             for o in _take(rng, allo_ref if i % 5 == 0 else allo, 4):
@@ -1188,16 +1185,19 @@ def chunks(tier, seed):
 
 
 def corpus_chunks():
-    """Finding witnesses and the inputs of the five repaired defects (run first)."""
+    """Finding witnesses and the inputs of the repaired defects (run first)."""
     d = (True, False, False, True, False, False)        # values only, default alias mode
     k = (True, True, False, True, False, False)
     a = (True, False, False, False, False, False)       # --anchorsonly
     cases = [
         ("{a: {b: a}}", "=a", "dot", k),                                  # F-C07-1
         ('{"&q": a}', "=a", "dot", d), ('{"a\\\\.b": a}', "=a", "dot", d), ('{"": a}', "=a", "slash", d),   # F-C07-2
-        ("a", "=a", "dot", d),                                             # F-C07-3
+        ("a", "=a", "dot", d), ("a", "=a", "slash", d), ("a", "=a", "dot", (False, True, False, True, False, False)),
+        ("null", "!=a", "dot", d), ("''", "!=a", "slash", d), ("&x a", "=a", "dot", a),     # fixed F-C07-3
         ("[&x a, &x b, *x]", "=b", "dot", a),                              # F-C07-4
-        ("{a: {k: &w b}, z: *w}", "<c", "dot", (True, True, False, False, False, False)),   # C07_alias_excluded_refuted
+        ("{a: {k: &w b}, z: *w}", "<c", "dot", (True, True, False, False, False, False)),   # fixed (was C07_alias_excluded_refuted)
+        ("{&k a: 1, b: {*k : {x: &n v}}, c: *n}", "=v", "dot", a),          # fixed: anchor beneath an excluded aliased key
+        ("{&k a: 1, b: {*k : {x: &n v}}, c: *n}", "=a", "slash", (True, True, False, False, False, True)),
         ("[!!set {x, y}, x]", "=x", "dot", d),                             # fixed d9ff2cf
         ("{a: &x {k: v}, b: *x}", "=v", "dot", d), ("{a: &x {k: v}, b: *x}", "=v", "slash", a),   # fixed da0a3a5
         ("{x: {&k a: 1}, y: {*k : 2}}", "=a", "dot", (True, True, False, False, False, False)),   # fixed 0862173
